@@ -733,7 +733,10 @@ class MagicRobot(wpilib.RobotBase):
         watchdog.addEpoch("@magicbot.feedback")
 
         for periodic, name in self.__periodics:
-            periodic()
+            try:
+                periodic()
+            except:
+                self.onException()
             watchdog.addEpoch(name)
 
     def _enabled_periodic(self) -> None:
